@@ -21,9 +21,10 @@
 //!     Snapshot, Rollback, Write(ext-8,8), GrowHeap(8), Write(hp,8)); from every base
 //!     state whose `$sp`+42 lies below the stack extent (and from the initial state)
 //!     ONE allocation that brings hp down to `$sp`+42, i.e. below an earlier stack
-//!     extent, and from every base of depth <= 2 one allocation down to `$sp` itself;
-//!     after it every sequence of <= T actions from a tail alphabet (rollback, growth
-//!     at the new boundaries, writes/copies across the stack/heap seam, reset).
+//!     extent, and from every base of depth <= 1 (thorough: 2) one allocation down to
+//!     `$sp` itself; after it every sequence of <= T actions from a tail alphabet
+//!     (rollback, growth at the new boundaries, writes/copies across the stack/heap
+//!     seam, reset; 9 letters quick, 17 thorough).
 //!     States with a 64 MiB buffer are never stored, merged or snapshotted; HUGE_PAR
 //!     tails run at once; 64 MiB blocks are recycled by a pooling allocator.
 //! Bounds: quick   small D=4, huge B=3 T=1, small D=5 (same alphabet);
@@ -57,6 +58,7 @@ use fuel_vm::{
         OwnershipRegisters,
     },
 };
+use rayon::prelude::*;
 use serde::{
     Deserialize,
     Serialize,
@@ -183,7 +185,7 @@ const MEM: usize = MEM_SIZE;
 const MEMW: u64 = VM_MAX_RAM;
 /// A buffer longer than this makes a state "huge" (never stored / snapshotted).
 const HUGE_LEN: usize = 1 << 22;
-/// Threads running huge tails (each holds up to 4 x 64 MiB).
+/// Threads running huge tails (each holds one or two 64 MiB copies, plus the shared parents).
 const HUGE_PAR: usize = 10;
 
 #[derive(Debug, Clone, Serialize, Deserialize, PartialEq, Eq, Hash)]
@@ -408,6 +410,10 @@ struct Cfg {
     full: bool,
     /// model "huge": remember every distinct state as a base for the huge tails
     collect_bases: bool,
+    /// model "huge": full tail alphabet (thorough) or its 9-letter core (quick)
+    wide_tail: bool,
+    /// model "huge": allocation down to `$sp` itself from bases up to this depth
+    plan_b_depth: usize,
 }
 
 type Key = (u64, u64, u64, u64, u64);
@@ -974,7 +980,7 @@ impl Mem {
         if (s.sp + 42 < s.refm.ext as u64 || path.is_empty()) && hp > s.sp + 42 {
             v.push((Act::GrowHeap(hp - (s.sp + 42)), t));
         }
-        if path.len() <= 2 && hp > s.sp {
+        if path.len() <= self.cfg.plan_b_depth && hp > s.sp {
             v.push((Act::GrowHeap(hp - s.sp), t.saturating_sub(1)));
         }
         v
@@ -983,26 +989,35 @@ impl Mem {
     /// Tail alphabet after the huge allocation (hp is now a small address).
     fn tail_actions(&self, s: &St) -> Vec<Act> {
         let (ext, hp) = (s.refm.ext as u64, s.refm.hp as u64);
+        let wide = self.cfg.wide_tail;
         let mut v = vec![];
         if s.snap.is_some() {
             v.push(Act::Rollback);
         }
         v.push(Act::GrowStack(hp));
         v.push(Act::GrowStack(hp + 1));
-        v.push(Act::GrowHeap(1));
+        if wide {
+            v.push(Act::GrowHeap(1));
+        }
         v.push(Act::GrowHeap(8));
         v.push(Act::GrowHeap(hp.saturating_sub(s.sp) + 1));
-        v.push(Act::Write { addr: ext.saturating_sub(8), len: 8, pat: 1 });
-        v.push(Act::Write { addr: ext.saturating_sub(7), len: 8, pat: 1 });
+        if wide {
+            v.push(Act::Write { addr: ext.saturating_sub(8), len: 8, pat: 1 });
+            v.push(Act::Write { addr: ext.saturating_sub(7), len: 8, pat: 1 });
+        }
         v.push(Act::Write { addr: hp.saturating_sub(1), len: 8, pat: 1 });
         v.push(Act::Write { addr: hp, len: 8, pat: 1 });
-        v.push(Act::Write { addr: MEMW - 8, len: 8, pat: 1 });
+        if wide {
+            v.push(Act::Write { addr: MEMW - 8, len: 8, pat: 1 });
+        }
         v.push(Act::Memcopy { dst: hp, src: 0, len: 8 });
-        v.push(Act::Memcopy { dst: 0, src: hp, len: 8 });
-        v.push(Act::Memcopy { dst: hp, src: hp + 7, len: 8 });
-        v.push(Act::Memcopy { dst: hp.saturating_sub(1), src: MEMW - 8, len: 8 });
-        if s.sp != 0 {
-            v.push(Act::SetSp(0));
+        if wide {
+            v.push(Act::Memcopy { dst: 0, src: hp, len: 8 });
+            v.push(Act::Memcopy { dst: hp, src: hp + 7, len: 8 });
+            v.push(Act::Memcopy { dst: hp.saturating_sub(1), src: MEMW - 8, len: 8 });
+            if s.sp != 0 {
+                v.push(Act::SetSp(0));
+            }
         }
         v.push(Act::Reset);
         v.dedup();
@@ -1013,9 +1028,10 @@ impl Mem {
         if left == 0 || ctx.out_of_time() {
             return
         }
-        for a in self.tail_actions(s) {
-            if let Some(n) = self.apply(s, &a, path, ctx) {
-                let p = with(path, &a);
+        // siblings run in parallel on the tails' thread pool (each holds one 64 MiB copy)
+        self.tail_actions(s).par_iter().for_each(|a| {
+            if let Some(n) = self.apply(s, a, path, ctx) {
+                let p = with(path, a);
                 HUGE_STATES.fetch_add(1, Ordering::Relaxed);
                 ctx.add_transitions(1);
                 ctx.evals(1);
@@ -1028,7 +1044,7 @@ impl Mem {
                     self.tail_rec(&n, &p, left - 1, ctx);
                 }
             }
-        }
+        });
     }
 
     fn run_tail(&self, s: &St, path: &[Act], tails: &[usize], ctx: &Ctx) {
@@ -1221,10 +1237,12 @@ fn small_cfg(thorough: bool) -> Cfg {
         mc_lens: vec![0, 1, 8, 9],
         full: true,
         collect_bases: false,
+        wide_tail: false,
+        plan_b_depth: 0,
     }
 }
 
-fn huge_cfg(collect_bases: bool) -> Cfg {
+fn huge_cfg(collect_bases: bool, thorough: bool) -> Cfg {
     Cfg {
         name: "huge",
         stack_sizes: vec![8, 100],
@@ -1234,6 +1252,8 @@ fn huge_cfg(collect_bases: bool) -> Cfg {
         mc_lens: vec![],
         full: false,
         collect_bases,
+        wide_tail: thorough,
+        plan_b_depth: if thorough { 2 } else { 1 },
     }
 }
 
@@ -1286,7 +1306,7 @@ fn explore(ctx: &Ctx) {
     // ---- model "huge": collect base states, then run the 64 MiB tails from each,
     // shallowest bases first, on a small thread pool (bounded resident memory)
     let (base_depth, tails): (usize, Vec<usize>) = ctx.pick((3, vec![1, 1, 1, 1]), (4, vec![2, 2, 2, 2, 1]));
-    let huge = Mem::new(huge_cfg(true)).exploring();
+    let huge = Mem::new(huge_cfg(true, thorough)).exploring();
     let t0 = ctx.elapsed();
     let sh = bfs::bfs(&huge, base_depth, 1_000_000, ctx);
     let mut bases = std::mem::take(&mut *huge.bases.lock().unwrap());
@@ -1300,7 +1320,6 @@ fn explore(ctx: &Ctx) {
             break
         }
         pool.install(|| {
-            use rayon::prelude::*;
             level.par_iter().for_each(|(s, p)| huge.run_tail(s, p, &tails, ctx));
         });
         if ctx.out_of_time() {
@@ -1321,7 +1340,9 @@ fn explore(ctx: &Ctx) {
             "run": hs,
             "base_alphabet": {"GrowStack": [8, 100], "SetSp": ["0", "8", "extent"], "Write": ["(ext-8, 8)", "(hp, 8)"], "GrowHeap": [8], "other": ["Snapshot", "Rollback"]},
             "huge_actions": ["A: GrowHeap(hp-($sp+42)) from every base with $sp+42 < extent, and from the initial state",
-                "B: GrowHeap(hp-$sp) from every base of depth <= 2, tail one shorter"],
+                format!("B: GrowHeap(hp-$sp) from every base of depth <= {}, tail one shorter", huge.cfg.plan_b_depth)],
+            "tail_alphabet_wide": huge.cfg.wide_tail,
+            "tail_alphabet_core": ["Rollback", "GrowStack(hp)", "GrowStack(hp+1)", "GrowHeap(8)", "GrowHeap(hp-sp+1)", "Write(hp-1,8)", "Write(hp,8)", "Memcopy(hp<-0,8)", "Reset"],
             "tail_alphabet": ["Rollback", "GrowStack(hp)", "GrowStack(hp+1)", "GrowHeap(1)", "GrowHeap(8)", "GrowHeap(hp-sp+1)",
                 "Write(ext-8,8)", "Write(ext-7,8)", "Write(hp-1,8)", "Write(hp,8)", "Write(MEM-8,8)",
                 "Memcopy(hp<-0,8)", "Memcopy(0<-hp,8)", "Memcopy(hp<-hp+7,8)", "Memcopy(hp-1<-MEM-8,8)", "SetSp(0)", "Reset"],
@@ -1353,7 +1374,7 @@ fn replay(case: &Value, ctx: &Ctx) {
     // action list already contains the huge allocation and its tail)
     let cfg = match case["model"].as_str() {
         Some("small") => small_cfg(ctx.thorough()),
-        Some("huge") => huge_cfg(false),
+        Some("huge") => huge_cfg(false, true),
         other => panic!("unknown model {other:?}"),
     };
     bfs::replay_path(&Mem::new(cfg), &acts, ctx);
